@@ -666,10 +666,10 @@ def run_impl(c):
     if op == 'crashprobe':
         import subprocess, sys as _sys
         prog = ('import sys; sys.path.insert(0, %r)\nimport bitstring\nfrom bitstring import *\nbitstring.options.lsb0 = %r\n' % (REPO, bool(c['lsb0'])) +
-                'import signal; signal.alarm(20)\nout = []\nfor st in %r:\n    a = BitArray(bin=%r)\n    try:\n        exec(st)\n        out.append("ok")\n'
+                'import signal; signal.setitimer(signal.ITIMER_PROF, 20); signal.alarm(300)\nout = []\nfor st in %r:\n    a = BitArray(bin=%r)\n    try:\n        exec(st)\n        out.append("ok")\n'
                 '    except MemoryError: out.append("MemoryError")\n    except Exception as e: out.append(type(e).__name__)\n    if len(a) != len(a.bin): out.append("len")\nprint("|".join(out))\n' % (c['stmts'], c['bits']))
         try:
-            pr = subprocess.run([_sys.executable, '-c', prog], capture_output=True, text=True, timeout=60)
+            pr = subprocess.run([_sys.executable, '-c', prog], capture_output=True, text=True, timeout=240)
             return ('ok', [pr.returncode, pr.stdout.strip().split('|') if pr.stdout.strip() else [], pr.stderr[-200:]])
         except subprocess.TimeoutExpired:
             return ('ok', [124, [], 'timeout'])
